@@ -320,6 +320,13 @@ func (w *vfSvc) reset() {
 	if !w.isOpen(w.gm.PublicKey) {
 		w.activate(w.gm.PublicKey, "gm")
 	}
+	// a tracked contact that is no longer in the lifecycle state it is named after is replaced by a fresh one
+	want := map[string]string{"ct": "T", "cr": "R", "ca": "A", "cb": "B"}
+	for c, k := range w.contacts {
+		if vfStateNames[ms.getContactStatus(k.pk)] != want[c] {
+			w.dirty[c] = true
+		}
+	}
 	names := []string{}
 	for c := range w.dirty {
 		names = append(names, c)
@@ -756,14 +763,16 @@ func vfAlnum(r *rand.Rand, n int) []byte {
 // ---------------------------------------------------------------- calls
 
 // calls that wait for the network or for new events by design: a short deadline ends them
-func vfDeadline(rpc string, stream bool) time.Duration {
+func vfDeadline(rpc string, a vfShape) time.Duration {
 	switch {
-	case stream, rpc == "RefreshContactRequest":
-		return 40 * time.Millisecond
+	case rpc == "GroupDeviceStatus", rpc == "RefreshContactRequest":
+		return 50 * time.Millisecond
+	case (rpc == "GroupMetadataList" || rpc == "GroupMessageList") && (a.P == "all" || a.P == "sincenow"):
+		return 50 * time.Millisecond
 	case rpc == "ReplicationServiceRegisterGroup", rpc == "CredentialVerificationServiceInitFlow":
-		return 400 * time.Millisecond
+		return 500 * time.Millisecond
 	}
-	return 20 * time.Second
+	return 30 * time.Second
 }
 
 type vfOutcome struct {
@@ -818,12 +827,12 @@ func vfErrCode(err error) string {
 	if err == nil {
 		return ""
 	}
-	if st, ok := status.FromError(err); ok && st.Code() != codes.Unknown {
+	s := err.Error()
+	if st, ok := status.FromError(err); ok && (st.Code() == codes.DeadlineExceeded || st.Code() == codes.Canceled) {
 		return st.Code().String()
 	}
-	s := err.Error()
-	if len(s) > 60 {
-		s = s[:60]
+	if len(s) > 100 {
+		s = s[:100]
 	}
 	return s
 }
@@ -868,7 +877,7 @@ func (w *vfSvc) call(rpc string, a vfShape, req any, via string) vfOutcome {
 	if !ok {
 		vfInfra("no invoker for %q", rpc)
 	}
-	ctx, cancel := context.WithTimeout(w.ctx, vfDeadline(rpc, inv.stream))
+	ctx, cancel := context.WithTimeout(w.ctx, vfDeadline(rpc, a))
 	defer cancel()
 	w.calls++
 	if via == "grpc" {
@@ -1013,12 +1022,7 @@ func vfHelper(fn, cls string, r *rand.Rand) vfOutcome {
 			}
 			switch fn {
 			case "GroupIsValid":
-				err := g.IsValid()
-				if err == nil && len(g.Secret) != 32 {
-					// a group that passes IsValid is then used: the signing key is derived from the secret
-					_, err = g.GetSigningPubKey()
-				}
-				return e(err)
+				return e(g.IsValid())
 			case "GroupGetSigningPubKey":
 				_, err := g.GetSigningPubKey()
 				return e(err)
@@ -1124,7 +1128,11 @@ func vfRunScript(w *vfSvc, sc vfScript, prog *vfProgress, skip map[string]bool, 
 			req2 := w.build(st.Act, a, rnd)
 			prog.set("%d %d grpc %s %s %s %s", sc.ID, i, st.Act, a.K, a.P, a.S)
 			o2 := w.call(st.Act, a, req2, "grpc")
-			emit(map[string]any{"ev": "rpc", "i": i, "rpc": st.Act, "k": a.K, "p": a.P, "s": a.S, "via": "grpc",
+			sb := a.S
+			if sb == "fail" {
+				sb = "sink" // the real client stream accepts every message
+			}
+			emit(map[string]any{"ev": "rpc", "i": i, "rpc": st.Act, "k": a.K, "p": a.P, "s": sb, "via": "grpc",
 				"out": o2.out, "code": o2.code, "n": o2.n, "site": o2.site, "stack": o2.stack, "pre": pre2, "st": w.proj()})
 		}
 	}
@@ -1215,6 +1223,9 @@ func TestVerifServiceAPI(t *testing.T) {
 		}(wk)
 	}
 	wg.Wait()
+	if p := os.Getenv("VERIF_PROGRESS"); p != "" {
+		_ = os.WriteFile(p+".done", []byte(fmt.Sprintf("VERIF-DONE scripts=%d services=%d calls=%d\n", len(scripts), services, total)), 0o644)
+	}
 	t.Logf("VERIF-DONE scripts=%d services=%d calls=%d", len(scripts), services, total)
 }
 
